@@ -4,7 +4,7 @@ use proptest::test_runner::{Config, RngAlgorithm, TestRng, TestRunner};
 use serde::Serialize;
 use serde_json::{json, Value};
 use std::panic::{catch_unwind, AssertUnwindSafe};
-use std::sync::atomic::{AtomicBool, Ordering};
+use std::sync::atomic::{AtomicBool, AtomicU64, Ordering};
 use vmodel::evidence::Acc;
 
 #[derive(Clone, Copy, Debug, PartialEq, Eq)]
@@ -90,7 +90,9 @@ where
     T: std::fmt::Debug,
 {
     let mut r = runner(seed);
-    for _ in 0..cases {
+    let stream = stream_of_seed(&seed);
+    for case_index in 0..cases {
+        slot_begin(stream, case_index);
         let mut tree = match strat.new_tree(&mut r) {
             Ok(t) => t,
             Err(e) => panic!("generator failed: {e}"),
@@ -135,10 +137,102 @@ where
                 }
             }
             acc.violation(best_reason, to_replay(&best));
+            slot_end();
             return true;
         }
     }
+    slot_end();
     false
+}
+
+/// the `index`-th case the driver would generate from this seed (no case is executed)
+pub fn regen<T, S>(seed: [u8; 32], strat: &S, index: u64) -> T
+where
+    S: Strategy<Value = T>,
+    T: std::fmt::Debug,
+{
+    let mut r = runner(seed);
+    let mut last = None;
+    for _ in 0..=index {
+        last = Some(strat.new_tree(&mut r).expect("generator").current());
+    }
+    last.unwrap()
+}
+
+// ---- crash / hang forensics: every worker thread publishes which case it is executing in a file-backed shared
+// mapping that survives the death of the process (DESIGN section 2.3)
+
+#[repr(C)]
+pub struct Slot {
+    pub active: AtomicU64,
+    pub stream: AtomicU64,
+    pub index: AtomicU64,
+    pub started_ms: AtomicU64,
+}
+
+pub const MAX_SLOTS: usize = 64;
+static SLOTS: std::sync::atomic::AtomicPtr<Slot> = std::sync::atomic::AtomicPtr::new(std::ptr::null_mut());
+
+thread_local! {
+    static MY_SHARD: std::cell::Cell<usize> = const { std::cell::Cell::new(usize::MAX) };
+}
+
+pub fn now_ms() -> u64 {
+    let mut ts = libc::timespec { tv_sec: 0, tv_nsec: 0 };
+    unsafe { libc::clock_gettime(libc::CLOCK_MONOTONIC, &mut ts) };
+    ts.tv_sec as u64 * 1000 + ts.tv_nsec as u64 / 1_000_000
+}
+
+/// maps (creating if needed) the slot file; used by workers (write) and the supervisor (read)
+pub fn map_slots(path: &str) -> *mut Slot {
+    use std::os::unix::io::AsRawFd;
+    let f = std::fs::OpenOptions::new().read(true).write(true).create(true).truncate(false).open(path).expect("slot file");
+    let len = MAX_SLOTS * std::mem::size_of::<Slot>();
+    f.set_len(len as u64).expect("slot file size");
+    let p = unsafe { libc::mmap(std::ptr::null_mut(), len, libc::PROT_READ | libc::PROT_WRITE, libc::MAP_SHARED, f.as_raw_fd(), 0) };
+    assert!(p != libc::MAP_FAILED, "mmap of the slot file failed");
+    p as *mut Slot
+}
+
+pub fn init_slots(path: &str) {
+    SLOTS.store(map_slots(path), Ordering::SeqCst);
+}
+
+pub fn set_my_shard(shard: usize) {
+    MY_SHARD.with(|s| s.set(shard));
+    crate::alloc::set_shard(shard);
+}
+
+/// the stream id is carried in the seed's last byte pair by `derive_seed` users: (shard, stream) are known to the
+/// caller; the driver only needs the stream, which callers encode through `tag_seed`
+pub fn tag_seed(mut seed: [u8; 32], stream: u64) -> [u8; 32] {
+    seed[31] = stream as u8;
+    seed
+}
+fn stream_of_seed(seed: &[u8; 32]) -> u64 {
+    seed[31] as u64
+}
+
+pub fn slot_begin(stream: u64, index: u64) {
+    let base = SLOTS.load(Ordering::Relaxed);
+    let shard = MY_SHARD.with(|s| s.get());
+    if base.is_null() || shard >= MAX_SLOTS {
+        return;
+    }
+    let s = unsafe { &*base.add(shard) };
+    s.stream.store(stream, Ordering::Relaxed);
+    s.index.store(index, Ordering::Relaxed);
+    s.started_ms.store(now_ms(), Ordering::Relaxed);
+    s.active.store(1, Ordering::Release);
+}
+
+pub fn slot_end() {
+    let base = SLOTS.load(Ordering::Relaxed);
+    let shard = MY_SHARD.with(|s| s.get());
+    if base.is_null() || shard >= MAX_SLOTS {
+        return;
+    }
+    unsafe { &*base.add(shard) }.active.store(0, Ordering::Release);
 }
 
 /// runs `f(shard, acc)` on `cx.shards` threads with large stacks and merges the accumulators
@@ -150,6 +244,7 @@ pub fn parallel(cx: &Cx, f: &(dyn Fn(usize, &mut Acc) + Sync)) -> Acc {
             let h = std::thread::Builder::new()
                 .stack_size(256 << 20)
                 .spawn_scoped(s, move || {
+                    set_my_shard(shard);
                     let mut acc = Acc::new();
                     match guarded(|| f(shard, &mut acc)) {
                         Ok(()) => {}
